@@ -208,3 +208,60 @@ def set_order_uses(fn: Any) -> list[str]:
                 isinstance(e, ast.Starred) and is_set(e.value) for e in n.elts):
             out.append(f"line {n.lineno}: *<set> unpacked into a sequence")
     return out
+
+
+def _mutated_params(fn: Any) -> set[str]:
+    """parameters a function mutates in place: `p += ..` (in place for lists/sets/dicts),
+    `p[..] = ..`, `p.append(..)` and the like"""
+    node = function_ast(fn)
+    if node is None or not isinstance(node, (ast.FunctionDef, ast.AsyncFunctionDef)):
+        return set()
+    params = {a.arg for a in node.args.posonlyargs + node.args.args + node.args.kwonlyargs}
+    rebound = {n.id for n in ast.walk(node) if isinstance(n, ast.Name)
+               and isinstance(n.ctx, ast.Store) and not isinstance(getattr(n, "parent", None),
+                                                                   ast.AugAssign)}
+    out: set[str] = set()
+    for n in ast.walk(node):
+        if isinstance(n, ast.AugAssign) and isinstance(n.target, ast.Name) and \
+                n.target.id in params:
+            out.add(n.target.id)
+        if isinstance(n, (ast.Assign, ast.AugAssign, ast.Delete)):
+            for t in (n.targets if isinstance(n, (ast.Assign, ast.Delete)) else [n.target]):
+                if isinstance(t, ast.Subscript) and isinstance(t.value, ast.Name) and \
+                        t.value.id in params:
+                    out.add(t.value.id)
+        if isinstance(n, ast.Call) and isinstance(n.func, ast.Attribute) and \
+                n.func.attr in MUTATORS and isinstance(n.func.value, ast.Name) and \
+                n.func.value.id in params:
+            out.add(n.func.value.id)
+    del rebound
+    return out
+
+
+def shared_arguments_mutated(mod: Any) -> dict[str, list[str]]:
+    """qualified name -> call sites that hand a module-level mutable container to a function of
+    the same module which mutates that parameter in place (the two sites look fine alone; together
+    the container changes with every call)."""
+    fns = {name: obj for name, obj in vars(mod).items()
+           if inspect.isfunction(obj) and obj.__module__ == mod.__name__}
+    summary = {name: _mutated_params(fn) for name, fn in fns.items()}
+    out: dict[str, list[str]] = {}
+    for q, fn, owner in functions_of(mod):
+        node = function_ast(fn)
+        if node is None:
+            continue
+        loc = _locals(node) if isinstance(node, (ast.FunctionDef, ast.AsyncFunctionDef)) else set()
+        for n in ast.walk(node):
+            if not (isinstance(n, ast.Call) and isinstance(n.func, ast.Name)
+                    and n.func.id in fns and summary[n.func.id]):
+                continue
+            callee = function_ast(fns[n.func.id])
+            params = [a.arg for a in callee.args.posonlyargs + callee.args.args]  # type: ignore
+            bound = list(zip(params, n.args)) + [(k.arg, k.value) for k in n.keywords if k.arg]
+            for pname, arg in bound:
+                if pname in summary[n.func.id] and isinstance(arg, ast.Name) and \
+                        arg.id not in loc and isinstance(vars(mod).get(arg.id), (list, dict, set)):
+                    out.setdefault(q, []).append(
+                        f"line {n.lineno}: module-level `{arg.id}` is passed to "
+                        f"{n.func.id}(), which mutates its parameter `{pname}` in place")
+    return out
